@@ -20,8 +20,9 @@ pid = sys.argv[1]
 sh(["git", "fetch", "-q", f"/tmp/b_{pid}/repo", pid])
 commits = sys.argv[2:]
 if not commits:
-    rc, out = sh(["git", "log", "--format=%h", "--reverse", "HEAD..FETCH_HEAD"])
-    commits = out.split()
+    # only commits whose patch is not in /repo yet (`git cherry` compares patch ids: "+" = not applied)
+    rc, out = sh(["git", "cherry", "HEAD", "FETCH_HEAD"])
+    commits = [l.split()[1][:7] for l in out.splitlines() if l.startswith("+")]
 mapping, hooks = {}, json.load(open(os.path.join(ROOT, "tools", "conf", "hooks.json")))
 for c in commits:
     rc, subj = sh(["git", "log", "-1", "--format=%s", c])
